@@ -114,6 +114,17 @@ def stop_once(F, R):
     for bi, var, s in state_stores(poll):
         src = [v for v in regions if bi in regions[v]]
         n_tr += 1
+        if src == ['Stop'] and var == 'Stop':
+            # putting the taken control future back (`st = Stop(Some(fut))` for `*slot = Some(fut)`) is not a transition:
+            # the stored value must not come from a new control call
+            og_ = set()
+            for op_ in (s['rv'].get('fields') or [s['rv'].get('op')]):
+                if op_ is not None and op_place(op_) is not None:
+                    og_ |= Origin(poll).of_operand(op_)
+            cc_blocks = {x[0] for x in control_calls(poll)}
+            if not any(l[0] == 'call' and isinstance(l[2], int) and l[2] in cc_blocks for l in og_) and any(l[0] == 'call' and re.search(r'Option::<T>::(take|unwrap|expect)$', l[1] or '') for l in og_):
+                R.ob('C07.stop-once', 'poll|transition|Stop->Stop(put-back)', True, '', poll.loc(bi))
+                continue
         R.ob('C07.stop-once', 'poll|transition|%s->%s' % ('+'.join(src) or '?', var), len(src) == 1 and var in allowed[src[0]],
              'state transition %s -> %s is not a forward transition of the teardown typestate' % (src, var), poll.loc(bi))
     R.floor('C07.stop-once', 'state transitions in poll', n_tr, 3)
